@@ -409,7 +409,7 @@ fn instr_part(ctx: &mut Ctx) {
 pub fn run(ctx: &mut Ctx) {
     let mut case: u64 = 0;
     // exhaustive histories on <= 3 node slots (slot 3 = never issued)
-    let k = ctx.n(3, 4);
+    let k = if ctx.is_fuzz() { 0 } else { ctx.n(3, 4) };
     let ops = op_alphabet(3);
     let nops = ops.len() as u64;
     let mut space = 0u64;
